@@ -340,6 +340,68 @@ class TestResolveExternalLocation:
         ):
             resolve_external_location(pointer, cm, config)
 
+    def test_rejected_object_delivers_no_logs(self) -> None:
+        """An object that fails validation hands nothing to on_log (it used to deliver its logs first)."""
+        storage = MockStorage()
+        config = ExternalLocationConfig(storage=storage, max_retries=0)
+
+        log_cm = encode_metadata({"vgi_rpc.log_level": "INFO", "vgi_rpc.log_message": "hello"})
+        b1 = pa.RecordBatch.from_pydict({"value": [1]}, schema=_SCHEMA)
+        b2 = pa.RecordBatch.from_pydict({"value": [2]}, schema=_SCHEMA)
+        other_schema = pa.schema([pa.field("other", pa.string())])
+        cases: dict[str, tuple[pa.Schema, list[tuple[pa.RecordBatch, pa.KeyValueMetadata | None]], type[Exception]]] = {
+            "https://mock.storage/two": (
+                _SCHEMA,
+                [(empty_batch(_SCHEMA), log_cm), (b1, None), (b2, None)],
+                RuntimeError,
+            ),
+            "https://mock.storage/none": (_SCHEMA, [(empty_batch(_SCHEMA), log_cm)], RuntimeError),
+            "https://mock.storage/ptr": (
+                _SCHEMA,
+                [
+                    (empty_batch(_SCHEMA), log_cm),
+                    (empty_batch(_SCHEMA), pa.KeyValueMetadata({LOCATION_KEY: b"https://x/y"})),
+                ],
+                RuntimeError,
+            ),
+            "https://mock.storage/schema": (
+                other_schema,
+                [
+                    (empty_batch(other_schema), log_cm),
+                    (pa.RecordBatch.from_pydict({"other": ["x"]}, schema=other_schema), None),
+                ],
+                ValueError,
+            ),
+        }
+        for url, (schema, batches, exc_type) in cases.items():
+            storage.data[url] = _serialize_ipc(schema, batches)
+            pointer, cm = make_external_location_batch(_SCHEMA, url)
+            received_logs: list[Message] = []
+            with _mock_aio(storage), pytest.raises(exc_type):
+                resolve_external_location(pointer, cm, config, on_log=received_logs.append)
+            assert received_logs == [], url
+
+    def test_retried_attempts_do_not_redeliver_logs(self) -> None:
+        """A truncated object is retried; its log batch must not reach on_log once per attempt."""
+        storage = MockStorage()
+        config = ExternalLocationConfig(storage=storage, max_retries=2, retry_delay_seconds=0.0)
+
+        log_cm = encode_metadata({"vgi_rpc.log_level": "INFO", "vgi_rpc.log_message": "hello"})
+        data_batch = pa.RecordBatch.from_pydict({"value": list(range(200))}, schema=_SCHEMA)
+        ipc_bytes = _serialize_ipc(_SCHEMA, [(empty_batch(_SCHEMA), log_cm), (data_batch, None)])
+        url = "https://mock.storage/truncated"
+        storage.data[url] = ipc_bytes[:-100]
+
+        pointer, cm = make_external_location_batch(_SCHEMA, url)
+        received_logs: list[Message] = []
+        with aiointercept_ctx() as mock:
+            body = storage.data[url]
+            mock.head(url, headers={"Content-Length": str(len(body))}, repeat=True)
+            mock.get(url, body=body, headers={"Content-Length": str(len(body))}, repeat=True)
+            with pytest.raises(RuntimeError, match="Failed to resolve"):
+                resolve_external_location(pointer, cm, config, on_log=received_logs.append)
+        assert received_logs == []
+
     def test_retry_success(self) -> None:
         """First attempt fails, second succeeds."""
         storage = MockStorage()
